@@ -118,7 +118,7 @@ def runM (cfg : Cfg) (sigs : List (Nat × Sig)) (univ : List Svc) : MState → L
   | st, .call k rr cv d :: r =>
     callS (bound sigs <| callOutcome cfg (haView st.reg) (lower k) cv d rr) :: runM cfg sigs univ st r
   | st, .scall k rr cv d :: r =>
-    callS (bound sigs <| scriptCallOutcome cfg (haView st.reg) (lower k) cv d rr) :: runM cfg sigs univ st r
+    callS (bound sigs <| scriptCallOutcome outCfg cfg (haView st.reg) (lower k) cv d rr) :: runM cfg sigs univ st r
   | st, .calls k rr cv ds :: r =>
     .list (.atom "calls" :: (overlapOutcome cfg (haView st.reg) (lower k) cv ds rr).map (fun o => callS (bound sigs o))) ::
       runM cfg sigs univ st r
@@ -178,7 +178,7 @@ def handle (x : Sexp) : String :=
     match entry? en, resp? tg, Sexp.listOf? arg? as with
     | some e, some target, some args =>
       let sp := splitCall e (if tc == "-" then none else some tc) args
-      let hass := finishCall e (target == .only) sp.1
+      let hass := finishCall outCfg e (target == .only) sp.1
       let m := match outResult target hass with
         | .typeError => "(raise TypeError)"
         | .refused => "(raise ServiceValidationError)"
